@@ -6,10 +6,18 @@ package main
 // Lean side only fixes the expected verdict "same".
 
 import (
+	"bufio"
 	"fmt"
+	"io"
+	"os"
+	"os/exec"
 	"reflect"
+	"runtime"
 	"sort"
 	"strings"
+	"sync"
+	"sync/atomic"
+	"time"
 
 	"seehuhn.de/go/postscript/funit"
 	"seehuhn.de/go/sfnt/glyph"
@@ -618,4 +626,187 @@ func genCtxLookup(c *Ctx, n int, gpos bool) *gtab.LookupTable {
 		l.Subtables = append(l.Subtables, g.genForm(form))
 	}
 	return l
+}
+
+// ---- the ops that call Parse run in a worker process ----
+//
+// A Parse that does not terminate cannot be stopped from inside the process, and it may allocate
+// without bound (a range loop that wraps around appends glyph ids for ever: 256 MiB in 1.5 s).
+// So these ops are executed by a child process (this binary, started with VERIF_DSL_WORKER=1),
+// one case per line over a pipe.  The child watches itself: when its heap passes 384 MiB or a
+// case runs longer than 3 s it exits, and the parent reports the outcome "runaway" for that case
+// and starts a new child.
+
+var dslWorkerOps = []string{"dsl.parse", "dsl.total", "dsl.roundtrip", "dsl.modelrt", "dsl.rtseed", "dsl.goroutines", "dsl.flags"}
+
+var dslImpl = map[string]opFn{}
+
+// dslWrapOps redirects the Parse-calling ops to the worker (idempotent; called at the end of the
+// init functions of both dsl files so that the order of initialisation does not matter).
+func dslWrapOps() {
+	for _, op := range dslWorkerOps {
+		if _, done := dslImpl[op]; done {
+			continue
+		}
+		fn, ok := ops[op]
+		if !ok {
+			continue
+		}
+		dslImpl[op] = fn
+		name := op
+		ops[op] = func(f Fields) string { return dslWorkerCall(name, f) }
+	}
+}
+
+type dslWorkerProc struct {
+	cmd     *exec.Cmd
+	in      io.WriteCloser
+	out     *bufio.Reader
+	outFile io.ReadCloser
+}
+
+var (
+	dslW         *dslWorkerProc
+	dslWmu       sync.Mutex
+	dslLastRtKey string
+	dslLastRtOut string
+)
+
+func dslWorkerStart() (*dslWorkerProc, error) {
+	exe, err := os.Executable()
+	if err != nil {
+		return nil, err
+	}
+	cmd := exec.Command(exe)
+	cmd.Env = append(os.Environ(), "VERIF_DSL_WORKER=1")
+	cmd.Stderr = io.Discard
+	in, err := cmd.StdinPipe()
+	if err != nil {
+		return nil, err
+	}
+	out, err := cmd.StdoutPipe()
+	if err != nil {
+		return nil, err
+	}
+	if err := cmd.Start(); err != nil {
+		return nil, err
+	}
+	return &dslWorkerProc{cmd: cmd, in: in, out: bufio.NewReaderSize(out, 1<<20), outFile: out}, nil
+}
+
+func dslWorkerCall(op string, f Fields) string {
+	if os.Getenv("VERIF_DSL_WORKER") == "1" { // already the worker
+		return dslImpl[op](f)
+	}
+	dslWmu.Lock()
+	defer dslWmu.Unlock()
+	if op == "dsl.modelrt" || op == "dsl.roundtrip" { // the same computation on the same arguments
+		key := fmt.Sprint(f)
+		if key == dslLastRtKey {
+			return dslLastRtOut
+		}
+		out := dslWorkerRun(op, f)
+		dslLastRtKey, dslLastRtOut = key, out
+		return out
+	}
+	return dslWorkerRun(op, f)
+}
+
+func dslWorkerRun(op string, f Fields) string {
+	if dslW == nil {
+		w, err := dslWorkerStart()
+		if err != nil {
+			return "worker-failed:" + strings.ReplaceAll(err.Error(), "\n", " ")
+		}
+		dslW = w
+	}
+	w := dslW
+	keys := make([]string, 0, len(f))
+	for k := range f {
+		keys = append(keys, k)
+	}
+	sort.Strings(keys)
+	var sb strings.Builder
+	sb.WriteString(op)
+	for _, k := range keys {
+		sb.WriteString(" " + k + "=" + f[k])
+	}
+	sb.WriteByte('\n')
+	if f, ok := w.outFile.(interface{ SetReadDeadline(time.Time) error }); ok {
+		_ = f.SetReadDeadline(time.Now().Add(6 * time.Second))
+	}
+	if _, err := io.WriteString(w.in, sb.String()); err == nil {
+		if s, err := w.out.ReadString('\n'); err == nil {
+			return strings.TrimSuffix(s, "\n")
+		}
+	}
+	// the worker died (watchdog) or hangs: get rid of it
+	_ = w.cmd.Process.Kill()
+	_ = w.cmd.Wait()
+	dslW = nil
+	return "runaway"
+}
+
+// dslWorkerMain is the child's loop.
+func dslWorkerMain() {
+	var started atomic.Int64
+	go func() {
+		var ms runtime.MemStats
+		for {
+			time.Sleep(20 * time.Millisecond)
+			runtime.ReadMemStats(&ms)
+			st := started.Load()
+			if ms.HeapAlloc > 384<<20 || (st != 0 && time.Now().UnixNano()-st > int64(3*time.Second)) {
+				os.Exit(3)
+			}
+		}
+	}()
+	in := bufio.NewReaderSize(os.Stdin, 1<<20)
+	out := bufio.NewWriter(os.Stdout)
+	for {
+		line, err := in.ReadString('\n')
+		if err != nil {
+			return
+		}
+		line = strings.TrimSuffix(line, "\n")
+		op, rest := line, ""
+		if i := strings.IndexByte(line, ' '); i >= 0 {
+			op, rest = line[:i], line[i+1:]
+		}
+		res := "unknown-op"
+		if fn, ok := dslImpl[op]; ok {
+			started.Store(time.Now().UnixNano())
+			res = guard(func() string { return fn(parseFields(rest)) })
+			started.Store(0)
+		}
+		res = strings.Map(func(r rune) rune {
+			if r == '\n' {
+				return ' '
+			}
+			return r
+		}, res)
+		fmt.Fprintln(out, res)
+		out.Flush()
+	}
+}
+
+func init() {
+	dslWrapOps()
+	if os.Getenv("VERIF_DSL_WORKER") == "1" {
+		if len(dslImpl) < len(dslWorkerOps) {
+			// the other dsl file is initialised later: its init calls dslWorkerEnter too
+			return
+		}
+		dslWorkerMain()
+		os.Exit(0)
+	}
+}
+
+// dslWorkerEnter starts the worker loop once all ops are registered (see init above).
+func dslWorkerEnter() {
+	dslWrapOps()
+	if os.Getenv("VERIF_DSL_WORKER") == "1" && len(dslImpl) == len(dslWorkerOps) {
+		dslWorkerMain()
+		os.Exit(0)
+	}
 }
